@@ -19,7 +19,16 @@ PROP = dict(
         "no leaf/node domain separation exists in the library (prefixes commented out): a 64-byte leaf equal to left||right of a node "
         "is a two-component change (leaf and proof length) and is outside the single-component tamper list",
         "leaf contents are a deterministic function of VERIF_SEED (SHA-256 counter mode)",
+        "Root() and Prove() are documented as pure observations: they are read after every single Push / PushSubTree / ReadAll "
+        "(and after refused PushSubTree calls) in the PushSubTree sweeps and in the rapid decomposition machine, each compared with "
+        "the reference root/proof of the leaves so far",
+        "slices are handed over as windows of larger populated caller buffers (leaves to Push, sums to PushSubTree, root and proof "
+        "sets to VerifyProof, leaf hashes to vortex.BuildMerkleTree, proofs to MerkleProof.Verify): results must not depend on, and "
+        "calls must not write to, what lies outside the window",
     ],
+    # cross-cutting classes that must be populated in every run (generator health)
+    mandatory_all=["observe_mid:after_push", "observe_mid:after_pushsubtree", "observe_mid:after_readall",
+                   "observe_mid:after_refused_pushsubtree", "input:slice_with_dirty_spare_capacity"],
     jobs=[
         dict(name="acc_sha256", pkg="c16", run="^TestC16_Accumulator$", rapid=False, shards=["sha256"], seeds=(2, 8),
              timeout=(900, 3600)),
